@@ -75,11 +75,20 @@ Fixpoint plookup (d : json) (t : ptable) : option (pres * bool) :=
   | (k, r, c) :: t' => if json_eqb k d then Some (r, c) else plookup d t'
   end.
 
-(* the backend of a case: expansion and ToRDF are the identity on the document,
-   the root and the compaction outcome come from the table; a miss is a Panic and
-   therefore a disagreement *)
-Definition table_backend (t : ptable) : backend json json Z unit :=
-  {| b_expand := fun d => Ok d;
+(* the backend of a case: expansion is the identity on the document — with [scan],
+   provided the contexts can be processed under the given loader view (decided by the
+   model's own context processing; used for the runs whose loader stops answering,
+   switched off elsewhere to keep the evaluation cheap) —, ToRDF is the identity, the root and the compaction outcome
+   come from the table; a miss is a Panic and therefore a disagreement *)
+Definition table_backend (scan : bool) (t : ptable) : backend json json Z unit :=
+  {| b_expand := fun ld d => if scan then
+                               match undefined_occ ld run_fuel d with
+                               | Ok _ => Ok d
+                               | Err e => Err e
+                               | Panic w => Panic w
+                               | Diverge => Diverge
+                               end
+                             else Ok d;
      b_to_rdf := fun d => Ok d;
      b_merk := fun d => match plookup d t with
                         | Some (PRoot r, _) => Ok (z_of_limbs r)
@@ -101,11 +110,33 @@ Definition ragree (r : res Z) (o : robs) : bool :=
   | _, _ => false
   end.
 
-Inductive ropt := RSafe (b : bool) | ROther.
-Definition opt_of (o : ropt) : mz_option :=
-  match o with RSafe b => WithSafeMode b | ROther => OOther end.
+(* the loader of a case: serves the documents of the table; [allowed] restricts
+   what it serves during one phase (None = everything) *)
+Definition view_of (t : list (string * json)) (allowed : option (list string)) : lview :=
+  fun u =>
+    if match allowed with Some a => str_in u a | None => true end
+    then match sassoc u t with Some d => Ok d | None => Err "no such document" end
+    else Err "fetch failed".
+Definition loader_of (t : list (string * json)) (a1 a2 : option (list string)) : option dloader :=
+  Some {| dl_normalize := view_of t a1; dl_compact := view_of t a2 |}.
 
-Definition lookup_loader (t : list (string * json)) (u : string) : option json := sassoc u t.
+(* options of a run: RLoader = WithDocumentLoader(the case's loader), RNilLoader =
+   WithDocumentLoader(nil) *)
+Inductive ropt := RSafe (b : bool) | RLoader | RNilLoader | ROther.
+Definition opt_of (full : option dloader) (o : ropt) : mz_option :=
+  match o with
+  | RSafe b => WithSafeMode b
+  | RLoader => WithDocumentLoader full
+  | RNilLoader => WithDocumentLoader None
+  | ROther => OOther
+  end.
+
+(* one MerklizeJSONLD call: is the process-wide default loader nil (else it is the
+   case's loader), the options, the outcome *)
+Definition run := (bool * list ropt * robs)%type.
+(* one call with a scripted loader: URLs served while Normalize runs, URLs served
+   while Compact runs, safe mode, outcome *)
+Definition frun := (list string * list string * bool * robs)%type.
 
 Record c15case := {
   k_id : int;
@@ -113,26 +144,39 @@ Record c15case := {
   k_doc : json;
   k_stripped : json;
   k_table : ptable;
-  k_runs : list (list ropt * robs);        (* MerklizeJSONLD(doc, opts...) *)
+  k_runs : list run;
+  k_flaky : list frun;
   k_stripped_unsafe : robs;                (* MerklizeJSONLD(stripped, WithSafeMode(false)) *)
   k_dropped : option (list rocc)           (* None: the implementation could not establish it *)
 }.
 Definition mkc15 (id : int) (ld : list (string * json)) (d s : json) (t : ptable)
-           (runs : list (list ropt * robs)) (su : robs) (dr : option (list rocc)) : c15case :=
+           (runs : list run) (fl : list frun) (su : robs) (dr : option (list rocc)) : c15case :=
   {| k_id := id; k_loader := ld; k_doc := d; k_stripped := s; k_table := t; k_runs := runs;
-     k_stripped_unsafe := su; k_dropped := dr |}.
+     k_flaky := fl; k_stripped_unsafe := su; k_dropped := dr |}.
 
 Definition case_ok (c : c15case) : bool :=
-  let ld := lookup_loader (k_loader c) in
-  let B := table_backend (k_table c) in
+  let full := loader_of (k_loader c) None None in
+  let ld := view_of (k_loader c) None in
+  let B := table_backend false (k_table c) in
+  let Bs := table_backend true (k_table c) in
   let sd := strip_undefined ld run_fuel (k_doc c) in
-  (* option plumbing + safe-mode decision + root *)
-  forallb (fun run => ragree (MerklizeJSONLD ld run_fuel B (map opt_of (fst run)) (k_doc c)) (snd run))
+  (* option plumbing (mode AND loader configuration) + safe-mode decision + root *)
+  forallb (fun r : run =>
+             let '(default_nil, opts, obs) := r in
+             ragree (MerklizeJSONLD run_fuel B (if default_nil then None else full)
+                                    (map (opt_of full) opts) (k_doc c)) obs)
           (k_runs c)
+  (* loaders that stop serving at some point of the call *)
+  && forallb (fun r : frun =>
+             let '(a1, a2, safe, obs) := r in
+             ragree (MerklizeJSONLD run_fuel Bs None
+                       [WithDocumentLoader (loader_of (k_loader c) (Some a1) (Some a2)); WithSafeMode safe]
+                       (k_doc c)) obs)
+          (k_flaky c)
   (* the model's stripped document is the one the harness built ... *)
   && json_eqb sd (k_stripped c)
   (* ... and merklizing it without safe mode gives what the implementation gives (C15_unsafe) *)
-  && ragree (merklize_doc ld run_fuel B false sd) (k_stripped_unsafe c)
+  && ragree (merklize_doc run_fuel B false full sd) (k_stripped_unsafe c)
   (* the stripped document has no undefined key left *)
   && match undefined_occ ld run_fuel sd with Ok [] => true | _ => false end
   (* which members were dropped, and which of them safe mode reports *)
